@@ -442,16 +442,17 @@ theorem fold_blink (colon : Bool) (o : Option Bool) (a : Attrs) :
   rw [fold_bool colon 9 5 25 o a (fun v a => { a with blink := v }) rfl rfl (by decide) rfl rfl]
   cases o <;> rfl
 
-/-- What a delta must satisfy for the xterm encoding to mean what the pen says: an underline style ≥ 2
-    needs `:` sub-parameters, and the size/position must be one that has an SGR code. -/
+/-- What a delta must satisfy for the xterm encoding to mean what the pen says: an underline style ≥ 3
+    (curly, …) needs `:` sub-parameters — there is no other way to say it —, and the size/position must
+    be one that has an SGR code. -/
 structure DeltaOk (caps : Caps) (d : Pen) : Prop where
-  under : ∀ v, d.under = some v → 0 ≤ v ∧ (caps.colon = true ∨ v ≤ 1)
+  under : ∀ v, d.under = some v → 0 ≤ v ∧ (caps.colon = true ∨ v ≤ 2)
   sizepos : ∀ v, d.sizepos = some v →
     v = 0 ∨ v = Tickit.Gen.Sgr.sizeposSuperscript ∨ v = Tickit.Gen.Sgr.sizeposSubscript
 
 theorem fold_under (colon : Bool) (o : Option Int) (a : Attrs)
-    (h : ∀ v, o = some v → 0 ≤ v ∧ (colon = true ∨ v ≤ 1)) :
-    (groupsOf colon (underComps o)).foldl sgrGroup (a, .none) =
+    (h : ∀ v, o = some v → 0 ≤ v ∧ (colon = true ∨ v ≤ 2)) :
+    (groupsOf colon (underComps colon o)).foldl sgrGroup (a, .none) =
       ({ a with under := (o.map Int.toNat).getD a.under }, .none) := by
   cases o with
   | none => simp [underComps, groupsOf_nil]
@@ -466,12 +467,15 @@ theorem fold_under (colon : Bool) (o : Option Int) (a : Attrs)
       · subst hv1
         cases colon <;> simp [groupsOf, sgrGroup, sgrSimple, Tickit.Gen.Sgr.sgrOn]
       · simp only [hv1, if_false]
-        have hcol : colon = true := by
-          rcases hc with hc | hc
-          · exact hc
-          · omega
-        subst hcol
-        simp [groupsOf, sgrGroup, sgrSub, Tickit.Gen.Sgr.sgrOn]
+        cases colon with
+        | true => simp [groupsOf, sgrGroup, sgrSub, Tickit.Gen.Sgr.sgrOn]
+        | false =>
+          have hv2 : v = 2 := by
+            rcases hc with hc | hc
+            · cases hc
+            · omega
+          subst hv2
+          simp [groupsOf, sgrGroup, sgrSimple, Tickit.Gen.Sgr.underDouble]
 
 theorem fold_altfont (colon : Bool) (o : Option Int) (a : Attrs) :
     (groupsOf colon (altfontComps o)).foldl sgrGroup (a, .none) =
@@ -587,7 +591,10 @@ theorem stepColour_expect (rgb8 set : Bool) (colors : Int) (c p : Option Colour)
   · rfl
   · split
     · rfl
-    · split <;> rfl
+    · split
+      · simp only
+        split <;> rfl
+      · rfl
 
 /-- What the cached pen asks for after a request = what it asked for before, overlaid with the delta. -/
 theorem expect_step (caps : Caps) (set : Bool) (colors : Int) (cache pen : Pen) :
@@ -636,7 +643,7 @@ theorem boolComps_eq_nil (attr : Nat) (o : Option Bool) (h : boolComps attr o = 
   | none => rfl
   | some c => simp [boolComps] at h
 
-theorem underComps_eq_nil (o : Option Int) (h : underComps o = []) : o = none := by
+theorem underComps_eq_nil (colon : Bool) (o : Option Int) (h : underComps colon o = []) : o = none := by
   cases o with
   | none => rfl
   | some c =>
@@ -672,7 +679,7 @@ theorem ovAttrs_of_comps_nil (caps : Caps) (d : Pen) (a : Attrs) (hd : DeltaOk c
   have e1 := colourComps_eq_nil _ _ _ h1
   have e2 := colourComps_eq_nil _ _ _ h2
   have e3 := boolComps_eq_nil _ _ h3
-  have e4 := underComps_eq_nil _ h4
+  have e4 := underComps_eq_nil _ _ h4
   have e5 := boolComps_eq_nil _ _ h5
   have e6 := boolComps_eq_nil _ _ h6
   have e7 := boolComps_eq_nil _ _ h7
@@ -885,6 +892,36 @@ theorem stepColour_fresh (colors : Int) (x : Colour) :
     unfold convColour
     rw [if_neg h', copyColour_some]
 
+theorem colour_of_idx_noRgb (y : Colour) (i : Int)
+    (h : (getColour (some y) == i && !hasRgb (some y)) = true) : y = ⟨i, none⟩ := by
+  cases y with
+  | mk yi yr => cases yr <;> simp_all [getColour, hasRgb]
+
+theorem stepColour_fresh' (colors : Int) (x y : Colour) :
+    (if getColour (some x) ≥ colors then
+        if (getColour (some y) == convertColour (getColour (some x)) colors && !hasRgb (some y)) = true then
+          (some y, (none : Option Colour))
+        else
+          ((some ({ idx := convertColour (getColour (some x)) colors, rgb := none } : Colour)),
+           (some ({ idx := convertColour (getColour (some x)) colors, rgb := none } : Colour)))
+      else (some (copyColour (some x)), some (copyColour (some x)))).1 = some (convColour colors x) := by
+  by_cases h : getColour (some x) ≥ colors
+  · rw [if_pos h]
+    have h' : x.idx ≥ colors := h
+    by_cases hy : (getColour (some y) == convertColour (getColour (some x)) colors && !hasRgb (some y)) = true
+    · rw [if_pos hy, colour_of_idx_noRgb y _ hy]
+      unfold convColour
+      rw [if_pos h']
+      rfl
+    · rw [if_neg hy]
+      unfold convColour
+      rw [if_pos h']
+      rfl
+  · rw [if_neg h]
+    have h' : ¬ x.idx ≥ colors := h
+    unfold convColour
+    rw [if_neg h', copyColour_some]
+
 theorem stepColour_link (set : Bool) (colors : Int) (l p : Option Colour) (h8 : 8 ≤ colors) :
     (stepColour set colors (l.map (convColour colors)) p).1 =
       (if set then some (p.getD ⟨-1, none⟩) else ov p l).map (convColour colors) := by
@@ -924,7 +961,7 @@ theorem stepColour_link (set : Bool) (colors : Int) (l p : Option Colour) (h8 : 
           have hlt := convColour_lt colors z h8
           rw [hy] at hlt ⊢
           rw [convColour_of_lt _ _ hlt]
-        · exact stepColour_fresh colors x
+        · exact stepColour_fresh' colors x (convColour colors z)
     rw [hgoal]
     cases set <;> simp [ov]
 
@@ -1004,7 +1041,7 @@ theorem length_flatten_colour (attr : Nat) (rgb8 : Bool) (o : Option Colour) :
 theorem length_flatten_bool (attr : Nat) (o : Option Bool) : (flatten (boolComps attr o)).length ≤ 1 := by
   cases o <;> simp [boolComps, flatten, flattenComp]
 
-theorem length_flatten_under (o : Option Int) : (flatten (underComps o)).length ≤ 2 := by
+theorem length_flatten_under (colon : Bool) (o : Option Int) : (flatten (underComps colon o)).length ≤ 2 := by
   unfold underComps
   split
   · simp [flatten]
@@ -1032,7 +1069,7 @@ theorem length_flatten_comps (caps : Caps) (d : Pen) : (flatten (comps caps d)).
   have h1 := length_flatten_colour 1 caps.rgb8 d.fg
   have h2 := length_flatten_colour 2 caps.rgb8 d.bg
   have h3 := length_flatten_bool 3 d.bold
-  have h4 := length_flatten_under d.under
+  have h4 := length_flatten_under caps.colon d.under
   have h5 := length_flatten_bool 5 d.italic
   have h6 := length_flatten_bool 6 d.reverse
   have h7 := length_flatten_bool 7 d.strike
@@ -1043,10 +1080,6 @@ theorem length_flatten_comps (caps : Caps) (d : Pen) : (flatten (comps caps d)).
 
 /-! ### 10. a request that leaves the logical pen unchanged -/
 
-/-- The colours a pen names are inside the terminal's palette. -/
-def InPalette (colors : Int) (p : Pen) : Prop :=
-  (∀ c, p.fg = some c → c.idx < colors) ∧ (∀ c, p.bg = some c → c.idx < colors)
-
 theorem stepBool_noop (set : Bool) (l p : Option Bool) (h : (if set then some (getBool p) else ov p l) = l) :
     (stepBool set l p).2 = none := by
   cases set <;> cases l <;> cases p <;> simp_all [stepBool, ov, getBool]
@@ -1056,7 +1089,6 @@ theorem stepInt_noop (set : Bool) (l p : Option Int) (h : (if set then some (get
   cases set <;> cases l <;> cases p <;> simp_all [stepInt, ov, getInt]
 
 theorem stepColour_noop (set : Bool) (colors : Int) (h8 : 8 ≤ colors) (l p : Option Colour)
-    (hp : ∀ c, p = some c → c.idx < colors)
     (h : (if set then some (p.getD ⟨-1, none⟩) else ov p l) = l) :
     (stepColour set colors (l.map (convColour colors)) p).2 = none := by
   have hdef : convColour colors ⟨-1, none⟩ = ⟨-1, none⟩ := convColour_of_lt _ _ (by show (-1 : Int) < colors; omega)
@@ -1074,19 +1106,34 @@ theorem stepColour_noop (set : Bool) (colors : Int) (h8 : 8 ≤ colors) (l p : O
     have hl : l = some x := by
       cases set <;> simp_all [ov]
     subst hl
-    have hx := convColour_of_lt _ _ (hp x rfl)
-    simp only [stepColour, Option.isNone_some, Bool.and_false, Bool.false_eq_true, if_false, Option.map_some, hx,
-      Option.isSome_some, Bool.true_and]
-    rw [if_pos (equivColour_refl x)]
+    by_cases hx : x.idx < colors
+    · have hx' := convColour_of_lt _ _ hx
+      simp only [stepColour, Option.isNone_some, Bool.and_false, Bool.false_eq_true, if_false, Option.map_some, hx',
+        Option.isSome_some, Bool.true_and]
+      rw [if_pos (equivColour_refl x)]
+    · -- beyond the palette: the cached pen holds the converted index, which is what the repaired code compares with
+      have hge : getColour (some x) ≥ colors := by show x.idx ≥ colors; omega
+      have hconv : convColour colors x = ⟨convertColour (getColour (some x)) colors, none⟩ := by
+        unfold convColour
+        rw [if_pos (by omega)]
+        rfl
+      simp only [stepColour, Option.isNone_some, Bool.and_false, Bool.false_eq_true, if_false, Option.map_some,
+        Option.isSome_some, Bool.true_and]
+      split
+      · rfl
+      · first
+          | (rw [hconv]; simp [getColour, hasRgb])
+          | (rw [if_pos hge, hconv]; simp [getColour, hasRgb])
+          | (rename_i hc; exact absurd hge hc)
 
-/-- If the request does not change the logical pen (and names no colour beyond the palette), the delta is empty. -/
-theorem termDelta_noop (colors : Int) (h8 : 8 ≤ colors) (l : Pen) (op : Op) (hp : InPalette colors op.pen)
+/-- If the request does not change the logical pen, the delta is empty. -/
+theorem termDelta_noop (colors : Int) (h8 : 8 ≤ colors) (l : Pen) (op : Op)
     (h : logicalStep l op = l) : termDelta op.isSet colors (convPen colors l) op.pen = {} := by
   cases op with
   | set p =>
     simp only [logicalStep, total] at h
     simp only [Op.isSet, Op.pen, termDelta, convPen, Pen.mk.injEq]
-    refine ⟨stepColour_noop true colors h8 _ _ hp.1 ?_, stepColour_noop true colors h8 _ _ hp.2 ?_, stepBool_noop true _ _ ?_,
+    refine ⟨stepColour_noop true colors h8 _ _ ?_, stepColour_noop true colors h8 _ _ ?_, stepBool_noop true _ _ ?_,
       stepInt_noop true _ _ ?_, stepBool_noop true _ _ ?_, stepBool_noop true _ _ ?_, stepBool_noop true _ _ ?_,
       stepInt_noop true _ _ ?_, stepBool_noop true _ _ ?_, stepInt_noop true _ _ ?_⟩
     · exact congrArg Pen.fg h
@@ -1102,7 +1149,7 @@ theorem termDelta_noop (colors : Int) (h8 : 8 ≤ colors) (l : Pen) (op : Op) (h
   | ch p =>
     simp only [logicalStep, overlay] at h
     simp only [Op.isSet, Op.pen, termDelta, convPen, Pen.mk.injEq]
-    refine ⟨stepColour_noop false colors h8 _ _ hp.1 ?_, stepColour_noop false colors h8 _ _ hp.2 ?_, stepBool_noop false _ _ ?_,
+    refine ⟨stepColour_noop false colors h8 _ _ ?_, stepColour_noop false colors h8 _ _ ?_, stepBool_noop false _ _ ?_,
       stepInt_noop false _ _ ?_, stepBool_noop false _ _ ?_, stepBool_noop false _ _ ?_, stepBool_noop false _ _ ?_,
       stepInt_noop false _ _ ?_, stepBool_noop false _ _ ?_, stepInt_noop false _ _ ?_⟩
     · exact congrArg Pen.fg h
